@@ -78,7 +78,8 @@ def grid_module(kind, tier, out_lits=None):
     prio_t = "<< " + tla_set("<<" + ", ".join(f'"{t}"' for t in s) + ">>" for s in subsets) + ", " + tla_set(chars(p) for p in PROBES) + " >>"
     maps = [[], [("p", "u1")], [("", "u0")], [("p", "u1"), ("", "u0")], [("p", "u1"), ("q", "u2")], [("p", "")]]
     maps_t = tla_set("<<" + ", ".join(f"<<{chars(p)}, {chars(u)}>>" for p, u in m) + ">>" for m in maps)
-    qlits = ["p:x", "x", "q:x", "zz:x", ":x", "p:", "p:x:y", " p:x ", "1x", "p:1x", "x-1", ""]
+    qlits = ["p:x", "x", "q:x", "zz:x", ":x", "p:", "p:x:y", " p:x ", "1x", "p:1x", "x-1", "",
+             "_x", "p:_x", "_", "-x", "p:-x", ".x", "x.y-z_", "\u00e9a", "p:\u00e9"]     # name start characters other than ASCII letters
     qn_t = "<< " + maps_t + ", " + tla_set(chars(x) for x in qlits) + " >>"
     out_t = "<< " + tla_set(chars(x) for x in (out_lits or [""])) + " >>"
     return (
